@@ -25,7 +25,7 @@ def run(run, model):
     # what the message shows must not depend on whether a variable happens to be None
     run.do(rec.comprehension_env, model, "C20.comprehension-env")
     run.do(rec.scope_restore, model, "C20.scope-restore")
-    run.minimum("C20.sorted", 3)
+    run.minimum("C20.sorted", 2)  # the two sorted walks (shown values, call arguments); the walk over the inputs of a failed quantifier may be a comprehension
     run.minimum("C20.a-repr", 8)
     run.minimum("C20.filter", 5)
     run.minimum("C20.no-nondeterminism", 20)
